@@ -22,9 +22,17 @@ use crate::{dbutil, watch};
 
 pub fn plan(tier: &str) -> u64 {
     match tier {
-        "quick" => 32 + 100,
-        _ => 320 + 3000,
+        "quick" => 32 + 100 + n_recovered(tier),
+        _ => 320 + 3000 + n_recovered(tier),
     }
+}
+
+fn n_perturbed(tier: &str) -> u64 {
+    if tier == "quick" { 100 } else { 3000 }
+}
+
+fn n_recovered(tier: &str) -> u64 {
+    if tier == "quick" { 24 } else { 300 }
 }
 
 fn n_forced(tier: &str) -> u64 {
@@ -356,13 +364,161 @@ fn case_perturbed(out: &mut CaseOut, tier: &str, seed: u64, idx: u64) {
     out.sample = Some(json!({"family": "perturbation", "ctx": ctx}));
 }
 
+/// Batches also have to stay whole across a crash: a recorded single-client run of whole-group
+/// batches over small memtables is cut after every creation of a write-ahead log file (the new
+/// log exists and is empty, the flush of the full memtable is not recorded yet) and after the
+/// calls that follow. Each image is recovered and every group is viewed - gets at one snapshot and
+/// one iterator scan - right after recovery and after each of a few later single writes, which
+/// advance the sequence number one step at a time.
+fn case_recovered(out: &mut CaseOut, tier: &str, seed: u64, idx: u64) {
+    use crate::session::{Session, WriteOp};
+    use crate::simfs::{classify, JOp, PathClass, Replayer};
+    let mut rng = Rng::new(mix(&[seed, idx], "c06-r"));
+    director().reset(rng.next_u64());
+    let cfg = Config { memtable: *rng.pick(&[512usize, 1024, 2048, 8192]), file: 4096, block: 256, reuse: rng.chance(0.5) };
+    let fs = SimFs::from_image(&dbutil::root_image());
+    fs.record_journal(true);
+    let mut sess = Session::new(fs.clone(), cfg);
+    if let Err(e) = sess.open() {
+        out.violate("C06/open-failed", json!({"error": e}));
+        return;
+    }
+    let n_groups = rng.range(2, 6) as usize;
+    let groups = make_groups(&mut rng, n_groups, false);
+    let n_batches = rng.range(20, 90);
+    let pad = rng.range(0, 60) as usize;
+    for b in 0..n_batches {
+        watch::tick();
+        let g = &groups[rng.usize_below(groups.len())];
+        let delete = rng.chance(0.12);
+        let ops: Vec<WriteOp> = g.keys.iter().map(|k| {
+            if delete {
+                (k.clone(), None)
+            } else {
+                let mut v = format!("t{b}:").into_bytes();
+                v.extend(std::iter::repeat(b'.').take(pad));
+                (k.clone(), Some(v))
+            }
+        }).collect();
+        if let Err(e) = sess.write(ops) {
+            out.inconclusive(format!("degenerate: write refused: {e}"));
+            return;
+        }
+    }
+    sess.wait_quiescent(Duration::from_secs(10));
+    sess.close();
+    let journal = fs.take_journal();
+    let mut points: BTreeSet<usize> = BTreeSet::new();
+    for (i, e) in journal.iter().enumerate() {
+        let wal_created = match &e.op {
+            JOp::CreateTrunc(p) | JOp::OpenAppend(p) => classify(p) == PathClass::Wal,
+            _ => false,
+        };
+        if wal_created {
+            for d in 1..=4 {
+                if i + d <= journal.len() {
+                    points.insert(i + d);
+                }
+            }
+        }
+    }
+    let mut points: Vec<usize> = points.into_iter().collect();
+    let budget = if tier == "quick" { 16 } else { 64 };
+    while points.len() > budget {
+        let i = rng.usize_below(points.len());
+        points.remove(i);
+    }
+    let ctx = json!({"family": "recovered-image", "config": cfg.describe(), "groups": groups.len(), "batches": n_batches, "journal_calls": journal.len()});
+    let view = |s2: &Session, when: &str, k: usize, out: &mut CaseOut| -> bool {
+        for (gi, g) in groups.iter().enumerate() {
+            // gets at one snapshot
+            let snapshot = s2.db().get_snapshot();
+            let mut tags = BTreeSet::new();
+            let mut seen = vec![];
+            let mut failed = false;
+            for key in &g.keys {
+                let tag = match s2.get_at(Some(&snapshot), key) {
+                    Ok(Some(v)) => tag_of(&v),
+                    Ok(None) => "∅".to_string(),
+                    Err(_) => {
+                        failed = true;
+                        break;
+                    }
+                };
+                seen.push(format!("{}={}", show(key), tag));
+                tags.insert(tag);
+            }
+            s2.db().release_snapshot(snapshot);
+            out.add("recovered_views", 1);
+            if !failed && tags.len() > 1 {
+                out.violate(format!("C06/partial-batch-visible/snapshot-gets/{when}"), json!({"ctx": ctx, "crash_after_call": k, "group": gi, "tags_seen": tags, "keys": seen}));
+                return false;
+            }
+            // one iterator scan
+            if let Ok(entries) = s2.scan(None) {
+                let prefix = format!("g{gi}-").into_bytes();
+                let present: std::collections::BTreeMap<&Vec<u8>, String> = entries.iter().filter(|(k, _)| k.starts_with(&prefix)).map(|(k, v)| (k, tag_of(v))).collect();
+                let tags: BTreeSet<String> = g.keys.iter().map(|k| present.get(k).cloned().unwrap_or_else(|| "∅".to_string())).collect();
+                out.add("recovered_views", 1);
+                if tags.len() > 1 {
+                    out.violate(format!("C06/partial-batch-visible/iterator/{when}"), json!({"ctx": ctx, "crash_after_call": k, "group": gi, "tags_seen": tags}));
+                    return false;
+                }
+            }
+        }
+        true
+    };
+    let mut replayer = Replayer::new(&dbutil::root_image());
+    let mut images = 0u64;
+    for (i, e) in journal.iter().enumerate() {
+        replayer.step(e);
+        if !points.contains(&(i + 1)) {
+            continue;
+        }
+        watch::tick();
+        let image = replayer.image();
+        let wal_sizes: Vec<usize> = image.files.iter().filter(|(p, _)| classify(p) == PathClass::Wal).map(|(_, b)| b.len()).collect();
+        let empty_newest_wal = wal_sizes.len() >= 2 && wal_sizes.iter().any(|s| *s == 0);
+        let mut s2 = Session::new(SimFs::from_image(&image), Config { reuse: rng.chance(0.5), ..cfg });
+        if s2.open().is_err() {
+            out.add("recovered_open_errors", 1);
+            continue;
+        }
+        images += 1;
+        let mut ok = view(&s2, "after-recovery", i + 1, out);
+        for step in 0..6 {
+            if !ok {
+                break;
+            }
+            if s2.put(b"zz-filler", format!("f{step}").as_bytes()).is_err() {
+                break;
+            }
+            ok = view(&s2, "after-recovery-and-later-writes", i + 1, out);
+        }
+        s2.close();
+        if empty_newest_wal {
+            out.nontrivial(format!("recovered/{}-wals-newest-empty/mem{}", wal_sizes.len().min(3), cfg.memtable));
+        } else {
+            out.nontrivial(format!("recovered/{}-wals/mem{}", wal_sizes.len().min(3), cfg.memtable));
+        }
+        if out.is_violated() {
+            break;
+        }
+    }
+    out.add("recovered_images", images);
+    out.sample = Some(json!({"family": "recovered-image", "ctx": ctx, "crash_points": points.len(), "images_recovered": images}));
+}
+
 pub fn run_case(tier: &str, seed: u64, idx: u64) -> CaseOut {
     let mut out = CaseOut::new();
     let nf = n_forced(tier);
+    let np = n_perturbed(tier);
     if idx < nf {
         case_forced(&mut out, seed, idx);
-    } else {
+    } else if idx < nf + np {
         case_perturbed(&mut out, tier, seed, idx - nf);
+    } else {
+        case_recovered(&mut out, tier, seed, idx - nf - np);
     }
     out
 }
